@@ -18,9 +18,13 @@ tie:     x_emit (syntactic classification of every set / random id / directory l
          x {fresh directory, re-run into the same directory, run after the other model list in the same directory, run after
          hand-placed stale files matching the plugin's owned pattern, run after a complete earlier output was DAMAGED in place
          (files under generated names truncated / edited to the same length / emptied / extended), run after hand-placed files the
-         plugin does not own}, byte comparison of whole output trees, plus a scan of the output for uuid-shaped strings; a failing
-         history is re-run, reduced to one planted file when possible, and recorded with file name, planted content and first
-         differing line;
+         plugin does not own}, byte comparison of whole output trees, plus a scan of the output for uuid-shaped strings;
+         for every plugin the stale-file history is repeated in OUTPUT DIRECTORIES WHOSE NAMES CONTAIN GLOB METACHARACTERS
+         (`packages[net8]`, `a*b`, `q?x`, `out[1]/generated`; "history@kind", see DIRNAMES) and the earlier-different-model history in
+         `packages[net8]`: a cleanup that treats the directory part of its pattern as a pattern (glob.glob(os.path.join(dir, PAT)),
+         fnmatch on full paths, a shell) removes nothing there — x_emit does not accept such a loop as a cleanup either;
+         a failing history is re-run, reduced to one planted file when possible, and recorded with the name of the output directory,
+         file name, planted content, what stands under the planted name after the run and the first differing line;
          process stream: several generations inside ONE Python process (lib/c16_inproc.py, entry point generator.__main__.main)
          — model A, then model B = A with every referenced enumeration's supportsCustomValues flipped and the first property
          of every extends/mixins base structure made optional/required (same names, different answers to every by-name
@@ -51,7 +55,10 @@ RULE = ("history stream: per plugin and model list — python/rust/dotnet on the
         "directory, run after the OTHER model list in the same directory, run after hand-placed stale files matching the owned pattern, run "
         "after a complete earlier output was damaged in place (up to four generated files: truncated to half, one byte changed at the same "
         "length, emptied, extended), run after hand-placed files the plugin does not own (these are left out of the comparison; whether they "
-        "survive is recorded)}; the whole output tree (path -> sha256) must equal the reference tree of that (plugin, model list); a failing "
+        "survive is recorded)}; per plugin additionally the stale-file history in output directories named `packages[net8]`, `a*b`, `q?x` and "
+        "`out[1]/generated` and the after-the-other-model-list history in `packages[net8]` (names with glob metacharacters; written `history@kind`; "
+        "a kind the file system refuses is skipped and recorded); "
+        "the whole output tree (path -> sha256) must equal the reference tree of that (plugin, model list); a failing "
         "combination is re-run next to the reference and reduced to one planted file when that still fails; "
         "distinct = distinct (plugin, model list, seed, history). "
         "process stream: per plugin (python/rust/dotnet on lsp.json, testdata on the small model; thorough: testdata on lsp.json too) the "
@@ -79,6 +86,25 @@ FOREIGN = {"python": [("lsprotocol/_hooks.py", "# hand written, not generated\n"
            "dotnet": [("lsprotocol/lsprotocol.csproj", "<Project Sdk=\"Microsoft.NET.Sdk\" />\n"), ("lsprotocol/Position.cs.orig", "// backup\n"), ("notes.txt", "keep me\n")],
            "testdata": [("notes.txt", "keep me\n"), ("README.md", "# hand written\n"), ("index.jsonl", "{}\n")]}
 DAMAGES = ["truncated", "same-length-edit", "emptied", "extended"]
+# names of the OUTPUT DIRECTORY that contain glob metacharacters: a history "<history>@<kind>" is <history> performed in a directory of
+# that name (created below the job's scratch directory).  pathlib's <dir>.glob(PAT) takes the directory literally; glob.glob(join(dir,
+# PAT)), fnmatch on the full path, a shell `rm dir/*.cs` treat the directory part as a pattern too — then `packages[net8]` matches only
+# `packagesn`, `packagese`, ... and the cleanup of the real directory removes nothing.  "ancestor": the metacharacter stands in a
+# parent of the output directory.
+DIRNAMES = {"brackets": "packages[net8]", "star": "a*b", "question": "q?x", "ancestor": os.path.join("out[1]", "generated")}
+
+
+def split_hist(h):
+    """'after-stale-files@brackets' -> ('after-stale-files', 'brackets'); 'rerun' -> ('rerun', None)"""
+    a, _, k = h.partition("@")
+    return a, (k or None)
+
+
+def meta_histories(rnd):
+    """(hash seed, history) run for every plugin in an output directory whose name contains glob metacharacters: hand-placed stale
+    files under every kind of name, and the files of an earlier, different model under the bracket name"""
+    return [("1", "after-stale-files@brackets"), ("2", "after-stale-files@star"), (rnd, "after-stale-files@question"),
+            ("2", "after-stale-files@ancestor"), ("1", "after-other-model@brackets")]
 
 
 def damage(kind, b):
@@ -265,9 +291,18 @@ def combo(plugin, mlist, seed, hist, base, models, plan=None, keep=False, tag=""
     [{"path", "damage"}] applied to the output of a first run (default: damage_plan over that output).
     -> {"tree", "leaks", "error", "first": tree after the first of two runs, "planted": the concrete directory state before the judged
         run (name, role, bytes), "after": what stands under each planted name after the run, "dir" (keep=True)}"""
-    d = os.path.join(base, "%s-%s-%s-%s%s" % (plugin, mlist, seed, hist, tag))
-    os.makedirs(d, exist_ok=True)
-    r = {"tree": None, "leaks": [], "error": None, "first": None, "planted": [], "after": [], "dir": d if keep else None}
+    hist, dk = split_hist(hist)
+    top = os.path.join(base, "%s-%s-%s-%s%s%s" % (plugin, mlist, seed, hist, "-in-" + dk if dk else "", tag))
+    d = os.path.join(top, DIRNAMES[dk]) if dk else top
+    r = {"tree": None, "leaks": [], "error": None, "first": None, "planted": [], "after": [], "dir": d if keep else None, "top": top if keep else None,
+         "output_directory": DIRNAMES[dk] if dk else None, "skipped": None}
+    try:
+        os.makedirs(d, exist_ok=True)
+    except OSError as e:
+        # a file system that does not allow the character in a name: nothing to test there (recorded, not a failure)
+        r["skipped"] = "cannot create a directory named %r here: %s" % (DIRNAMES.get(dk), e)
+        shutil.rmtree(top, ignore_errors=True)
+        return r
     try:
         if hist == "rerun":
             rc, log = gen(plugin, seed, d, models[mlist])
@@ -322,9 +357,9 @@ def combo(plugin, mlist, seed, hist, base, models, plan=None, keep=False, tag=""
                 r["after"].append({"path": it["path"], "role": it["role"], "after_run": "removed"})
         return r
     finally:
-        if not keep:
-            shutil.rmtree(d, ignore_errors=True)
         shutil.rmtree(d + "-tests", ignore_errors=True)
+        if not keep:
+            shutil.rmtree(top, ignore_errors=True)
 
 
 VARIANT = {"committed": "variant", "small": "small-variant"}
@@ -433,7 +468,11 @@ def jobs_for(tier, rnd, extra_seeds=()):
     jobs += [("testdata", "small", s, h) for s in seeds for h in HISTS]
     jobs += [("testdata", "small-ext", s, "fresh") for s in ("1", "2", "3")]
     jobs += [("testdata", "small-collide", s, "fresh") for s in ["1", "2", "3", rnd] + list(extra_seeds)]
+    # every plugin: previous contents in an output directory whose NAME contains glob metacharacters
+    for p, m in (("python", "committed"), ("rust", "committed"), ("dotnet", "committed"), ("testdata", "small")):
+        jobs += [(p, m, s, h) for s, h in meta_histories(rnd)]
     if tier == "thorough":
+        jobs += [("testdata", "committed", "1", "after-stale-files@brackets"), ("testdata", "committed", "2", "after-other-model@ancestor")]
         jobs += [("testdata", "committed", s, h) for s in FIXED_SEEDS + [rnd] for h in HISTS]
         jobs += [("testdata", "extended", s, "fresh") for s in ("1", "2")]
         jobs += [("testdata", "collide", s, "fresh") for s in ("1", "2")]
@@ -482,9 +521,14 @@ def judge(res):
         ref = next((r["tree"] for (s, h), r in rows if r["tree"] is not None and (s, h) == ("1", "fresh")), None) or \
             next((r["tree"] for (s, h), r in rows if r["tree"] is not None and h == "fresh"), None) or \
             next((r["tree"] for (s, h), r in rows if r["tree"] is not None), None)
-        for (s, h), r in rows:
-            here = {"plugin": p, "models": m, "seed": s, "history": h}
+        for (s, hfull), r in rows:
+            h, dk = split_hist(hfull)
+            here = {"plugin": p, "models": m, "seed": s, "history": hfull}
+            if dk:
+                here["output_directory_name"] = DIRNAMES[dk]
             planted = [{k: v for k, v in it.items() if not k.startswith("_")} for it in r["planted"]]
+            if r.get("skipped"):
+                continue
             if r["error"]:
                 bad.append(dict(here, what="generator failed", detail=r["error"][-600:], planted=planted))
             elif h == "after-other-model" and r["first"] == ref:
@@ -566,7 +610,8 @@ def reduce_extension(p, m, s, base, models, budget_s=45):
 def explain(b, base, models, reduce=True):
     """re-run a failing combination next to its reference (confirmation), reduce a planted history to ONE planted file when that
     alone still fails, and describe the first differing line per file -> the concrete input of the replay file"""
-    p, m, s, h = b["plugin"], b["models"], b["seed"], b["history"]
+    p, m, s, hfull = b["plugin"], b["models"], b["seed"], b["history"]
+    h, dk = split_hist(hfull)
     model_files = models["_describe"].get(m)
     reduced = None
     if reduce and h == "fresh" and s != "1" and m in REDUCIBLE and b.get("diff"):
@@ -577,8 +622,11 @@ def explain(b, base, models, reduce=True):
             model_files = list(model_files[:-1]) + [{"file": model_files[-1]["file"], "document": doc}]
             reduced = "the last model file was reduced from the generated document of lib/props/c16.py (%s) while a hash-seed difference persisted" % m
     ref = combo(p, m, "1", "fresh", base, models, keep=True, tag="-explain-ref")
-    out = {"plugin": p, "models": m, "model_files": model_files, "seed": s, "history": h,
+    out = {"plugin": p, "models": m, "model_files": model_files, "seed": s, "history": hfull,
            "reference": {"seed": "1", "history": "fresh", "same_model_files": True}, "confirmed_by_second_run": False}
+    if dk:
+        out["output_directory_name"] = DIRNAMES[dk]
+        out["output_directory"] = "--output-dir <scratch>/%s (the reference run writes into a directory with a plain name)" % DIRNAMES[dk]
     if reduced:
         out["reduced_model"] = reduced
     try:
@@ -592,7 +640,7 @@ def explain(b, base, models, reduce=True):
             culprits = [it for it in full if it["path"] in names] or full
             plans = [[it] for it in culprits[:3]] + [full]
         for i, plan in enumerate(plans):
-            r = combo(p, m, s, h, base, models, plan=plan, keep=True, tag="-explain-%d" % i)
+            r = combo(p, m, s, hfull, base, models, plan=plan, keep=True, tag="-explain-%d" % i)
             try:
                 if r["tree"] is None:
                     if i == len(plans) - 1:
@@ -604,17 +652,22 @@ def explain(b, base, models, reduce=True):
                 df = diff_trees(ref["tree"], t)
                 files = (df["content_differs"] + df["only_in_this_run"] + df["only_in_reference"])[:3]
                 planted = [{k: v for k, v in it.items() if not k.startswith("_")} for it in r["planted"]]
+                if h == "after-other-model" and r["first"]:
+                    # what the earlier run on the other model list left behind and this run did not remove
+                    left = sorted(k for k in df["only_in_this_run"] if k in r["first"])
+                    planted = planted or {"written_by": "a run of the same plugin on the model list %r into the same directory" % OTHER[m], "files": len(r["first"]),
+                                          "of_which_not_generated_for_this_model_list_and_still_there_after_the_run": left}
                 out.update(confirmed_by_second_run=True, directory_before_the_run=planted or ("empty" if h == "fresh" else h),
                            plan=plan, reduced_to_one_planted_file=bool(plan) and len(plan) == 1 and len(b.get("planted", [])) > 1,
                            observed={"diff": df, "planted_files_after_the_run": r["after"],
                                      "first_differences": [first_difference(ref["dir"], r["dir"], f, ("reference_run", "this_run")) for f in files]})
                 return out
             finally:
-                shutil.rmtree(r["dir"], ignore_errors=True)
+                shutil.rmtree(r["top"] or r["dir"], ignore_errors=True)
         out.setdefault("note", "the difference did not show again in a second run of the same combination")
         return out
     finally:
-        shutil.rmtree(ref["dir"], ignore_errors=True)
+        shutil.rmtree(ref["top"] or ref["dir"], ignore_errors=True)
 
 
 def run(chk):
@@ -691,8 +744,8 @@ def run(chk):
         bad = judge(res)
         # the failure recorded as the counter-example: a hash-seed difference in a fresh directory or a planted directory state is
         # more concrete than a two-run history, so prefer those
-        bad.sort(key=lambda b: (b["what"].startswith("vacuous"), b["history"] not in ("fresh",) + PLANTED, b["history"] != "fresh" and not b.get("survived"),
-                                b["models"] not in ("committed", "small")))
+        bad.sort(key=lambda b: (b["what"].startswith("vacuous"), split_hist(b["history"])[0] not in ("fresh",) + PLANTED,
+                                b["history"] != "fresh" and not b.get("survived"), b["models"] not in ("committed", "small")))
         return bad, (explain(bad[0], base, models) if bad and not bad[0]["what"].startswith("vacuous") else None)
 
     res, pres, models, (bad, explained) = run_stream(jobs, workers=14 if chk.tier == "quick" else 8, seqs=seqs, after=after)
@@ -700,9 +753,13 @@ def run(chk):
     for j, r in res.items():
         chk.count(j, nontrivial=r["tree"] is not None)
     ntrees = sum(1 for r in res.values() if r["tree"] is not None)
+    skipped = sorted({"%s: %s" % (split_hist(j[3])[1], r["skipped"]) for j, r in res.items() if r.get("skipped")})
+    nmeta = sum(1 for j, r in res.items() if split_hist(j[3])[1] and r["tree"] is not None)
     chk.obligation("history-stream:real-plugins-byte-identical", not bad,
-                   "%d runs-with-history (%s), %d differing; random hash seed of this run: %s" % (
-                       ntrees, ", ".join("%s/%s: %d" % (p, m, sum(1 for j in jobs if j[:2] == (p, m))) for p, m in sorted({j[:2] for j in jobs})), len(bad), rnd))
+                   "%d runs-with-history (%s), %d differing; %d of them in output directories named %s%s; random hash seed of this run: %s" % (
+                       ntrees, ", ".join("%s/%s: %d" % (p, m, sum(1 for j in jobs if j[:2] == (p, m))) for p, m in sorted({j[:2] for j in jobs})), len(bad),
+                       nmeta, sorted(DIRNAMES.values()), (" (skipped: %s)" % "; ".join(skipped)) if skipped else "", rnd))
+    chk.extra["output_directory_names_with_glob_metacharacters"] = {"names": DIRNAMES, "runs": nmeta, "skipped": skipped}
     foreign = {}
     for (p, m, s, h), r in sorted(res.items()):
         for a in r["after"]:
@@ -751,7 +808,7 @@ def run(chk):
     if broken and not bad and not pbad:
         chk.violation({"property": "C16", "kind": "obligation no longer checks", "broken": [{"what": a, "name": b, "detail": c} for a, b, c in broken],
                        "searched": "%d real plugin runs over seeds %s, model lists %s and histories %s: all output trees byte-identical; %d generations inside %d multi-generation "
-                                   "processes: all equal to fresh-process output" % (ntrees, seeds, sorted({j[1] for j in jobs}), HISTS, ncomp, len(pres))},
+                                   "processes: all equal to fresh-process output" % (ntrees, seeds, sorted({j[1] for j in jobs}), sorted({j[3] for j in jobs}), ncomp, len(pres))},
                       no_input=True)
 
 
